@@ -479,10 +479,20 @@ pub fn abs_ctx(scheme: &Scheme, spec: &SchemeSpec, sch_id: usize, ctx: &Executio
                     kind: "set".into(),
                     sets: sm.sets.clone(),
                 },
-                None => MatcherSpec {
-                    kind: k.into(),
-                    sets: vec![],
-                },
+                None => {
+                    // a built-in matcher: what it IS is read off its behaviour (always matches / never matches),
+                    // not off the definition the scheme was built with
+                    let probe = match t {
+                        Ty::Int => wirefilter::LhsValue::Int(0),
+                        Ty::Ip => wirefilter::LhsValue::Ip(std::net::IpAddr::from([0, 0, 0, 0])),
+                        _ => wirefilter::LhsValue::Bytes((&b"probe"[..]).into()),
+                    };
+                    let _ = k;
+                    MatcherSpec {
+                        kind: if lm.match_value("probe", &probe) { "always".into() } else { "never".into() },
+                        sets: vec![],
+                    }
+                }
             }
         })
         .collect();
